@@ -62,7 +62,7 @@ package data
 //@ spec carryPos(v []int, w []int, k int) int = ite(k < 0, -1, ite(v[k] + 1 < w[k], k, carryPos(v, w, k-1)))
 
 //@ func Product(ix) returns (r)
-//@   locals result, v
+//@   locals result, v@loop
 //@   canary [C02.canary-product] r == 1
 //@   safety C02
 //@   assigns nothing
@@ -70,7 +70,7 @@ package data
 //@   loop 0 invariant -1 <= rangeindex && rangeindex < len(ix) && result == iprod(ix, rangeindex + 1)
 
 //@ func dotProduct(lhs, rhs) returns (r)
-//@   locals result, i
+//@   locals result, i@loop
 //@   safety C02
 //@   requires len(rhs) >= len(lhs)
 //@   assigns nothing
@@ -78,7 +78,7 @@ package data
 //@   loop 0 invariant 0 <= i && i <= len(lhs) && result == idot(lhs, rhs, i)
 
 //@ func Multiply(lhs, rhs) returns (r)
-//@   locals result, i
+//@   locals result, i@loop
 //@   safety C02
 //@   requires len(rhs) >= len(lhs)
 //@   fresh r
@@ -87,7 +87,7 @@ package data
 //@   loop 0 invariant 0 <= i && i <= len(lhs) && len(result) == len(lhs) && forall(k, 0, i, result[k] == lhs[k]*rhs[k])
 
 //@ func decrement(vector) returns (r)
-//@   locals result, i
+//@   locals result, i@loop
 //@   safety C02
 //@   fresh r
 //@   assigns nothing
@@ -95,7 +95,7 @@ package data
 //@   loop 0 invariant 0 <= i && i <= len(vector) && len(result) == len(vector) && forall(k, 0, i, result[k] == vector[k] - 1)
 
 //@ func Increment(vector, wrt)
-//@   locals dims, i
+//@   locals dims, i@loop
 //@   noalias
 //@   safety C02
 //@   requires len(vector) >= len(wrt)
@@ -110,7 +110,7 @@ package data
 //@   loop 0 invariant carryPos(old(seq(vector)), seq(wrt), dims-1) == carryPos(old(seq(vector)), seq(wrt), i)
 
 //@ func Argmax(vector) returns (r)
-//@   locals res, maxFound, i, v
+//@   locals res, maxFound, i@loop, v@loop
 //@   safety C02
 //@   requires len(vector) >= 1
 //@   assigns nothing
@@ -120,7 +120,7 @@ package data
 //@   loop 0 invariant forall(k, 0, rangeindex + 2, vector[k] <= maxFound) && forall(k, 0, res, vector[k] < maxFound)
 
 //@ func Maximum(vector) returns (r)
-//@   locals res, v
+//@   locals res, v@loop
 //@   safety C02
 //@   requires len(vector) >= 1
 //@   assigns nothing
@@ -129,7 +129,7 @@ package data
 //@   loop 0 invariant forall(k, 0, rangeindex + 2, vector[k] <= res) && exists(k, 0, rangeindex + 2, vector[k] == res)
 
 //@ func Offsets(dims) returns (r)
-//@   locals res, i
+//@   locals res, i@loop
 //@   safety C02
 //@   requires len(dims) >= 1
 //@   fresh r
@@ -143,7 +143,7 @@ package data
 //@   loop 0 invariant implies(forall(k, 0, len(dims), dims[k] >= 1), forall(k, i+1, len(dims), res[k] >= 1))
 
 //@ func IDivMod(numerator, denominators, modulator) returns (r)
-//@   locals res, i
+//@   locals res, i@loop
 //@   safety C02
 //@   requires len(modulator) >= len(denominators)
 //@   requires forall(k, 0, len(denominators), denominators[k] != 0 && modulator[k] != 0)
@@ -162,7 +162,7 @@ package data
 //@ types {T} = ArrayType, Float64, Float32, Int32, Uint32, Int64, Uint64, Int, Uint
 
 //@ func (*Nd{T}Common).Index(nd, loc) returns (r)
-//@   locals result, i
+//@   locals result, i@loop
 //@   canary [C01.canary-index] r == nd.Start
 //@   safety C01
 //@   requires len(loc) <= len(nd.OffsetStep)
@@ -232,7 +232,7 @@ package data
 //@   ensures [C01.set1-footprint] nd.Impl[nd.Start + loc*nd.OffsetStep[0]] == val && forall(p, 0, len(nd.Impl), implies(p != nd.Start + loc*nd.OffsetStep[0], nd.Impl[p] == old(nd.Impl[p])))
 
 //@ func (*nd{t}).Get1(nd, loc) returns (r)
-//@   locals idx, i
+//@   locals idx, i@loop
 //@   safety C01
 //@   requires len(nd.Dims) == 1 && len(nd.OffsetStep) >= 1
 //@   requires 0 <= nd.Start + loc*nd.OffsetStep[0] && nd.Start + loc*nd.OffsetStep[0] < len(nd.Impl)
@@ -410,7 +410,7 @@ package data
 //@ spec contigc(d []int, od []int, st []int, of []int, n int) bool = forall(k, 0, n, implies(d[k] > 1, agree(d, od, k+1, n) && st[k] <= 1 && of[k] <= pfrom(d, k+1, n)))
 
 //@ func (*nd{t}).Unroll(nd) returns (r)
-//@   locals s, e, length, res, dimOffsets, i, loc
+//@   locals s, e, length, res, dimOffsets, i@loop, loc
 //@   simplify entry-ids
 //@   safety C02
 //@   chain ensures
@@ -442,7 +442,7 @@ package data
 //@ induct [C01.lemma-run-first] (base int, step int, os int) z : runaddr(base, 0, step, os) == base
 //@ induct [C01.lemma-run-injective] (base int, j1 int, j2 int, step int, os int) z : implies(step >= 1 && os >= 1 && j1 != j2, runaddr(base, j1, step, os) != runaddr(base, j2, step, os))
 //@ func (*nd{t}).Apply(nd, loc, dim, step, vals)
-//@   locals sliceDim, sliceStep, slice, concrete, implSlice, subset, start, i, v
+//@   locals sliceDim, sliceStep, slice, concrete, implSlice, subset, start, i@loop, v@loop
 //@   simplify entry-ids
 //@   safety C01
 //@   callsite Set instantiate C01.lemma-idot-upd(old(seq(loc)), seq(loc), seq(nd.OffsetStep), dim, len(loc))
@@ -544,7 +544,7 @@ package data
 // the same for every row-major position of the block (induction variable unused)
 //@ induct [C01.lemma-sladdr-rmaddr-all] using C01.lemma-sladdr-rmaddr (d []int, os []int, st []int, ns int, w []int, N int) z : implies(forall(k, 0, N, w[k] == sstride(os, st, ns, k)), forall(j, 0, iprod(d, N), rmaddr(d, w, j, N, N) == sladdr(d, os, st, ns, j, N, N)))
 //@ func (*nd{t}).ApplySlice(nd, loc, step, vals)
-//@   locals shape, slice, idx, size, pos
+//@   locals shape, slice, idx, size, pos@loop
 //@   ndmodel rowmajor
 //@   simplify entry-ids
 //@   bounded rank <= 3 (the mixed-radix successor lemma is proved for ranks 1, 2 and 3; extents, strides and steps are symbolic)
@@ -648,7 +648,7 @@ package data
 
 // ---- Maximum / Minimum of a view: a bound of every element that one element attains (C02); BOUNDED by rank 3 ----
 //@ func (*nd{t}).Maximum(nd) returns (r)
-//@   locals idx, res, shape, size, pos, v
+//@   locals idx, res, shape, size, pos@loop, v
 //@   safety C02
 //@   simplify entry-ids
 //@   bounded rank <= 3 (the mixed-radix successor lemma is proved for ranks 1, 2 and 3)
@@ -671,7 +671,7 @@ package data
 //@   loop 0 invariant exists(j, 0, size, nd.Impl[nd.Start + rmaddr(nd.Dims, nd.OffsetStep, j, len(nd.Dims), len(nd.Dims))] == res)
 
 //@ func (*nd{t}).Minimum(nd) returns (r)
-//@   locals idx, res, shape, size, pos, v
+//@   locals idx, res, shape, size, pos@loop, v
 //@   safety C02
 //@   simplify entry-ids
 //@   bounded rank <= 3 (the mixed-radix successor lemma is proved for ranks 1, 2 and 3)
@@ -710,7 +710,7 @@ package data
 //@   ensures r != nil && r.rank == len(dims) && r.g_shapeid == dims.id && forall(j, 0, len(data), r.at(j) == data[j])
 
 //@ func AddTo{T}Array(dest, source)
-//@   locals destSlice, sourceSlice, i, idx, shape, size, pos
+//@   locals destSlice, sourceSlice, i@loop, idx, shape, size, pos@loop
 //@   loopsigs 6aa92397 aec0de26
 //@   ndmodel rowmajor/rav
 //@   simplify entry-ids
@@ -740,7 +740,7 @@ package data
 
 // fn is modelled as a pure, deterministic function of its argument (A-PURE-FN)
 //@ func ApplyFunc1{T}(dest, source, fn)
-//@   locals destSlice, sourceSlice, i, idx, shape, size, pos
+//@   locals destSlice, sourceSlice, i@loop, idx, shape, size, pos@loop
 //@   loopsigs 42261041 9d10ee50
 //@   ndmodel rowmajor/rav
 //@   simplify entry-ids
